@@ -111,6 +111,25 @@ CHECKS = {
             'and Python re are modelled (re validated exhaustively on short strings over the marker alphabet), not '
             'verified.  Known finding D25 (string-valued ${} result resolved a second time) carried with a guard.',
             '§5 C15'),
+    'C13': ('correspondence',
+            'Lean 4 theorems over a loop model (frames, handles with caches, held events) by induction over the frame '
+            'list; tied to loop.py by correspondence; known finding D26 carried with a guard and a decide-checked witness',
+            'Theorems in lean/DesperProofs/Props/C13.lean: frame abandoned and target processed next, on_switch_out once '
+            'in the left world, on_switch_in once in the entered instance after its pending load-time callbacks, left '
+            'world silent until re-entered then held events in order, clear flags give fresh instances, target loaded '
+            'at most once.  Correspondence: real SimpleLoop/World/Handle subclasses, switches from processors, event '
+            'callbacks and coroutines, all flag combinations, cached/uncached targets, self-switches.',
+            'Trusted: Lean kernel; reading of the statement; correspondence harness (bounded by generators).  The clock (time.perf_counter monotonicity) is an input; callbacks are scripted reactions; fuel bounds only callback nesting.',
+            '§5 C13'),
+    'C14': ('correspondence',
+            'Lean 4 theorems over the loop model: dt sequence = deltas of consumed readings across switches, '
+            'telescoping sum, Quit/other exception outcomes, restart begins with dt 0; tied to loop.py by correspondence',
+            'Theorems in lean/DesperProofs/Props/C14.lean (C14_dt, C14_telescopes, C14_once_per_iteration, C14_quit, '
+            'C14_other_propagates, C14_restart).  Correspondence: reading sequences with repeats, frame scripts where '
+            'any processor quits, switches or raises, restarts of the same loop object; oracle = predicate over the '
+            'implementation stream written from the property text.',
+            'Trusted: Lean kernel; reading of the statement; correspondence harness (bounded by generators).  The clock (time.perf_counter monotonicity) is an input; callbacks are scripted reactions; fuel bounds only callback nesting.',
+            '§5 C14'),
 }
 
 NOT_YET = 'check not built yet (work in progress; see DESIGN.md §5 for the plan)'
